@@ -100,7 +100,8 @@ META = {
         "rule": "rejection-heavy random programs x 20 seeds each: record (recording PRNG stream) -> same seed again -> replay as recorded -> "
                 "prune (real prune() vs reference prune) -> replay pruned, comparing draws and verdict; Example(seed) pairs; whole Checks with a "
                 "fixed -rapid.seed run twice in one process with unrelated checks / cache use in between; a sample of all seeds is evaluated by two "
-                "different shard processes with different histories and compared by digest; non-trivial+distinct = distinct (program, seed) "
+                "different shard processes with different histories and compared by digest; recordings with -rapid.steps 30/300/2000; a 'history' family runs "
+                "StringMatching(p).Example(seed) in a fresh child process and in a child that used related patterns before; non-trivial+distinct = distinct (program, seed) "
                 "recordings of complete runs from which prune() removed bits, plus distinct example values and check pairs",
         "assumptions": COMMON_ASSUME + ["replay with rejected attempts removed is judged for complete (passing/failing) runs only; for runs rejected as invalid only the as-recorded replay is judged"],
         "level_text": "Runtime differential monitor: the same bits are pushed through the real streams twice (PRNG twice, recording vs buffer "
@@ -129,7 +130,8 @@ META = {
                 "{1,2,3,5,17,100,1000}: count completed/skipped invocations by stream kind against TB verdict (exactly N completed then stop, or "
                 "exactly 10N skipped and an 'only generated' failure with FailNow); planted passing/invalid fail files must be replayed first, exactly once each; "
                 "failing programs: no fresh random case after the falsified one, one recording run with the same draws, FailNow last; real *testing.T "
-                "sub-tests: statement after a failed Check must not run; non-trivial+distinct = distinct (N, sigma, #fail files, verdict) cells and failing programs",
+                "sub-tests: statement after a failed Check must not run; a fail file whose replay falsifies once (state dependent) must fail the test "
+                "without fresh random cases; a child process with a real test deadline (-test.timeout) in which every case is skipped must not pass; non-trivial+distinct = distinct (N, sigma, #fail files, verdict) cells and failing programs",
         "assumptions": COMMON_ASSUME,
         "level_text": "Runtime counting monitor over the real Check loop: every property invocation is counted by stream kind and matched with the TB verdict.",
         "technique": "invocation-counting monitor (conservation: N completed or 10N skipped) over recording fake TB and real *testing.T sub-tests",
@@ -140,7 +142,7 @@ META = {
         "required": ["runs_with_failure", "family:forced", "family:random", "verbose_runs"],
         "show": ["checks_run", "runs_with_failure", "cases", "verbose_runs"],
         "rule": "per-case behaviour is a function of the case's first draw: all 4^3 orders of {Errorf, Skip, cleanup-time Errorf, pass} and all ordered "
-                "pairs of 11 behaviours are forced onto consecutive cases (dry run with the same seed yields each case's first draw), plus random "
+                "pairs of 14 behaviours (incl. Skip from a cleanup, cleanups registering cleanups) are forced onto consecutive cases (dry run with the same seed yields each case's first draw), plus random "
                 "sequences; oracle: findBug stops at the first case that signalled, the reproduction run has that case's draws, no 'flaky', no cleanup "
                 "runs after a later case began, every case starts with a live context and clear failure flag, verbose draw labels restart at #0 per case; "
                 "non-trivial+distinct = distinct behaviour sequences (up to the falsified case) observed",
@@ -190,6 +192,7 @@ META = {
         "rule": "enumeration of the matrix: 15 failure kinds (panic string/error/struct/nil, 3 runtime errors, Fatal, Fatalf, FailNow, Error, Errorf, Fail, "
                 "Error()/Errorf(\"\") with empty message) x 9 callback contexts x position of the falsifying case (first, middle, the checks-th, after 9 "
                 "skipped cases, late state-machine step; steered by a same-seed dry run) x variant (plain, then Skip, then a draw rejected as invalid data, "
+                "Skip in a cleanup that runs after the signalling cleanup, Skip from a deferred function of the signalling callback, "
                 "Skip inside a cleanup); oracle: an invocation recorded a failure intent => TB failed, never 'flaky'; skip-only programs never fail; "
                 "a cell whose falsifier never fired is inconclusive; non-trivial+distinct = distinct matrix cells in which the falsifier fired",
         "assumptions": COMMON_ASSUME,
@@ -224,7 +227,9 @@ META = {
                 "bad/huge/negative/one-character word, truncations and bit flips of a genuine file, genuine file whose case now passes / overruns / is "
                 "skipped, comments only, whitespace) planted in the test's fail-file directory; oracle against the same Check with the same seed in an "
                 "empty directory: identical random invocations, verdict, message, seed; no crash; one ignore/no-longer log line per file; a mutated "
-                "file that still parses and still falsifies is a usable fail file and is then judged by the C01 oracle; "
+                "file that still parses and still falsifies is a usable fail file and is then judged by the C01 oracle; further families: unusable explicit "
+                "-rapid.failfile next to a usable file, explicit file replaced by garbage between two Checks of one process, other-version files "
+                "(several version spellings) whose case would still fail; "
                 "non-trivial+distinct = distinct (planted kinds, property fails?) directories",
         "assumptions": COMMON_ASSUME,
         "level_text": "Runtime differential monitor (directory with unusable files vs empty directory) through the real Check.",
@@ -294,8 +299,8 @@ META = {
         "rule": "(a) 8-bit ranges [a,b] of Uint8Range/Int8Range (ByteRange sampled): draw until every value was seen, cap 2*10^5 (quick: every 16th range, "
                 "thorough: all 65,792); (b) 64-bit ranges placed at type extremes / crossing zero / random: offset from the bound nearer to zero split into "
                 "bit-length bands, every required band must be hit within 3*10^5 draws; full-range floats: every (sign, exponent sign, exponent magnitude "
-                "band) hit; (c) min, max and zero-if-in-range of random integer and float ranges (incl. +-Inf, adjacent floats, extremes) within 5000 draws; "
-                "(d) freshness: pairs of Checks without -rapid.seed differ, cases within a run differ, 16 goroutines x 3000 concurrent Checks all differ, "
+                "band) hit; (a') every value of float ranges 1-20 ulp wide; (c) min, max and zero-if-in-range of random integer and float ranges (incl. +-Inf, adjacent floats, extremes) within 5000 draws; "
+                "(d) freshness: pairs of Checks without -rapid.seed differ, cases within a run differ, 16 goroutines x 3000 concurrent Checks all differ, one stored MakeCheck function run three times differs, "
                 "sequences differ across all shard processes; non-trivial+distinct = distinct ranges / runs explored",
         "assumptions": COMMON_ASSUME + ["value-level reachability is exhaustive only for 8-bit ranges; for wider kinds it is decided per bit-length band "
                                         "(probability floor 1e-4 per draw: false-alarm probability < 1e-12 per band)"],
@@ -312,7 +317,9 @@ META = {
         "required": ["cases", "ops", "cleanups", "cases_with_context", "late_cleanup_cases", "porcupine:Ok", "canary_race_reports", "verbose_checks", "checks_run"],
         "show": ["cases", "ops", "cleanups", "late_cleanup_cases", "porcupine:Ok", "porcupine:Illegal", "porcupine:Unknown", "race_reports_distinct", "canary_race_reports"],
         "rule": "binary built with -race; each case starts G in {2,4,8,16,32} goroutines behind a barrier, each running a random script over {Helper, Name, Log, "
-                "Logf, Error, Errorf, Fail, Failed, Context, Cleanup} on the case's T (variants: all scripts start with Context(); goroutines that outlive the "
+                "Logf, Error, Errorf, Fail, Failed, Context, Cleanup} on the case's T (variants: all scripts start with Context(); goroutines polling Context() across the end of the property "
+                "(never a live context after a cancelled one); goroutines registering cleanups and reading Failed() while a short state machine steps and "
+                "the property returns (in-process hang watchdog); goroutines that outlive the "
                 "body, wake on context cancellation and register cleanups while rapid runs the cleanups; verbose logging on/off; cases driven by Check and by "
                 "VerifRecord for a per-case outcome); monitors: race detector reports = 0, porcupine linearizability of every per-T history against the "
                 "sequential model {failed, ctx}, outcome failed iff a failing call was made, cleanups registered = ran exactly once, one context per case, "
